@@ -17,7 +17,7 @@ text = f"""### 10.6 Seeded changes and the checks that catch them
 
 Fresh sub-agents, each given only the text of one property and a scratch worktree of /repo, produced source changes that break
 that property while the code still compiles and the pinned suite still passes (confirmed for every kept change with
-`tools/baseline_off.py`: 59/59). Seven rounds: round 1 (`Cxx-n`) asked for realistic slips in the anchored code; round 2
+`tools/baseline_off.py`: 59/59). Eight rounds: round 1 (`Cxx-n`) asked for realistic slips in the anchored code; round 2
 (`Cxxr2-n`) for subtler ones in helpers, error paths, caches, concurrency, each needing a specific input or schedule; round 3
 (`Cxxr3-n`) for changes OUTSIDE the functions the property anchors in (actors, shared crate, type definitions, start-up wiring);
 round 4 (`Cxxr4-n`) for faults that depend on HISTORY or ENVIRONMENT (an earlier request on the same connection, an earlier
@@ -25,7 +25,9 @@ failure or retry, a restart, a file left by an earlier run, a configuration othe
 rounds 5 and 6 (`Cxxr5-n` for eight properties, `Cxxr6-n` for the other twelve) for RARELY EXECUTED PATHS and quantities (I/O and
 channel failures, shutdown with work in flight, clocks, descriptor exhaustion, buffer capacities, Linux socket and file behaviour);
 round 7 (`Cxxr7-n`, ten properties) for faults of ORDERING AND CONCURRENCY: a lock, an await point, a task or a message whose
-position makes the behaviour depend on the schedule.
+position makes the behaviour depend on the schedule; round 8 (`Cxxr8-n`, the other ten properties) for faults of DATA
+REPRESENTATION (integer widths and signedness, units, case mapping, path spelling, duplicate and empty fields, byte vs character)
+and of the ORDER of two unchanged steps of one procedure.
 A last group (`harmless-Hn-m`) are behaviour-preserving refactorings on which every check has to stay quiet. Every change is kept
 under `seeded/<name>/` (`patch.diff`, the agent's `demo.md`, `meta.json`, and `result.json` written by `tools/seed_eval.py`, which
 applies the patch to /repo, runs the named checks and undoes it).
@@ -143,6 +145,20 @@ Changes a check missed when it was first run against them, and what was added so
   C16r7-2 (three separate reads of the flags): reported through the correspondence only (`no-failing-input-found`): the message
   trace of a query differs from the model's single `GetState`. Two changes to hook H3 in /repo came out of this round (a panic in
   the hook no longer poisons it; the hook closure runs outside its lock so that holding one actor does not hold the others).
+* Round 8 — 15 of 20 were reported by the checks as they stood (C02r8-1/-2, C03r8-1, C03r8-2 and C06r8-1 through the simulator and the
+  running kernel, C08r8-1/-2, C17r8-1/-2, C18r8-2, C19r8-1, C20r8-1/-2 with failing inputs; C15r8-1/-2 only through their generated
+  facts; C10r8-1 by C05 and C10r8-2 by C04). Added: C15r8-1 (`should_skip_sig` on the canonicalised target): targets that only a
+  normalising comparison takes for the two upload URLs (a repeated or empty parameter, a trailing `&` or `?`, `/machine?…`, a
+  trailing or doubled slash) with bodies just above 100 KiB; C15r8-2 (100 MiB written as 1000 x 100 KiB): requests that only
+  DECLARE their length (no body sent), around both limits, around 1000 x 100 KiB and beyond 2^31 and 2^32 — a declared length above
+  the limit of its class is refused at once, one within it is not — so the 100 MiB class is probed in every quick run
+  (`c15.declared_lengths`); C18r8-1 (envelope left out of the batch size): files of two plain events whose rendered sizes add up
+  to the cap, 24 bytes apart, across it; C19r8-2 (dump written before the old ones are pruned): the dump directory watched with
+  inotify while dumps are written at its limit, the running count updated at every create / rename / delete event
+  (`c19.dump_peak`); C06r8-2 (connect4 attached before the kprobe): the agent's own `Redirector::attach_bpf_prog` run in the
+  kernel against a test cgroup named by a stand-in findmnt (engine op `attachagent`): after a failed attach step no connect may be
+  redirected (`c06.agent_attach_sequence`); C10r8-1/-2 in C10 itself: one of the three secrets is 48 bytes long and the client
+  brings an authorization header of its own on the proxied route.
 
 {head}""" + "\n".join(breaking) + "\n\nBehaviour-preserving changes:\n\n" + head.replace("caught by", "checks run") + "\n".join(harmless) + "\n"
 p = os.path.join(VERIF, "DESIGN.md")
